@@ -167,6 +167,13 @@ def codec(ctx, pl, prods):
                 if bad in kw:
                     probs.append('%s= given' % bad)
             zt = U(d.args[1]) if len(d.args) > 1 else ''
+            if len(d.args) > 1 and isinstance(d.args[1], ast.Name):
+                # the ztype held in a local (assigned once in this function)
+                ds = [a for a in ast.walk(f.node) if isinstance(a, ast.Assign) and len(a.targets) == 1 and U(a.targets[0]) == zt]
+                if len(ds) == 1:
+                    zt = U(ds[0].value)
+                else:
+                    raise AnalysisError('%s: ztype `%s` of the decoder call is not a single-assignment local' % (f.qualname, zt))
             if 'float32' not in zt:
                 probs.append('ztype `%s` is not float32' % zt)
             if probs:
